@@ -94,6 +94,22 @@ func applyMut(doc map[string]any, m jmut) bool {
 		default:
 			obj[m.F] = map[string]any{"referenceSystem": map[string]any{"code": uri, "codeSpace": "x"}}
 		}
+	case "sameAsPrev":
+		// the value the same key has in the previous tile matrix (a tie between two matrices)
+		arr, ok := doc["tileMatrices"].([]any)
+		if !ok || m.W == "doc" || m.W == "first" {
+			return false
+		}
+		idx := map[string]int{"mid": len(arr) / 2, "last": len(arr) - 1}[m.W]
+		prev, ok := arr[idx-1].(map[string]any)
+		if !ok {
+			return false
+		}
+		pv, has := prev[m.F]
+		if !has {
+			return false
+		}
+		obj[m.F] = pv
 	case "dropElement", "elemNumber":
 		arr, ok := cur.([]any)
 		if !ok || len(arr) < 4 {
@@ -194,7 +210,13 @@ func jsonReplay(args []string) int {
 				}
 				enc2, _ := json.Marshal(&t2)
 				rec["rt_equal"] = reflect.DeepEqual(t, t2)
-				rec["rt_stable"] = string(enc) == string(enc2)
+				stable := string(enc) == string(enc2)
+				for k := 0; k < 6 && stable; k++ { // an encoding that depends on map iteration order shows in a few repetitions
+					again, _ := json.Marshal(&t2)
+					first, _ := json.Marshal(&t)
+					stable = string(again) == string(enc2) && string(first) == string(enc)
+				}
+				rec["rt_stable"] = stable
 				var re any
 				json.Unmarshal(enc, &re)
 				rec["orig_equal"] = reflect.DeepEqual(re, origs[name])
